@@ -58,7 +58,9 @@ def repo_test_traces(res, want):
             os.remove(raw)
         env = {"RUSTFLAGS": "--cfg fidget_verif --check-cfg cfg(fidget_verif)", "CARGO_TARGET_DIR": os.path.join(WORK, "target-repotests"),
                "FIDGET_VERIF_TRACE": raw}
-        rc, text, dt = sh(["cargo", "test", "--offline", "-p", "fidget-jit", "-p", "fidget-mesh", "-p", "fidget-raster", "-p", "fidget-solver", "--lib"],
+        # (fidget-raster is left out since the tile-decision hooks exist: its tests render large images, one event per tile
+        # and per hit, and nothing in them says what those decisions should be; the tile hooks are exercised by raster tiles2 / tiles3)
+        rc, text, dt = sh(["cargo", "test", "--offline", "-p", "fidget-jit", "-p", "fidget-mesh", "-p", "fidget-solver", "--lib"],
                           6000, cwd="/repo", env=env)
         log("repository tests with hooks on: rc=%d %.0fs" % (rc, dt))
         if not os.path.exists(raw):
